@@ -2,7 +2,7 @@
    kind = property*100 + sub-model.  [run] = what the model says the implementation must
    output on this input; [mon] = the property's monitor applied to the implementation's own
    observed output. *)
-From RainV Require Import Lib Tier Geometry SectionIO Meta Paths Wire Stree AddrList Cache Tracker Announcer Picker Ram InfoDl Magnet Admission PieceDl Leech.
+From RainV Require Import Lib Tier Geometry SectionIO Meta Paths Wire Stree AddrList Cache Tracker Announcer Picker Ram InfoDl Magnet Admission PieceDl Leech MetaSess.
 
 Definition run (kind : Z) (inp : list Z) : list Z :=
   match kind with
@@ -28,6 +28,7 @@ Definition run (kind : Z) (inp : list Z) : list Z :=
   | 1104 => run_roundtrip inp
   | 1301 => run_idl inp
   | 1302 => run_magnet inp
+  | 1303 => run_metasess true inp
   | 1501 => run_udp_packet inp
   | 1502 => run_http_query inp
   | 1503 => run_announcer inp
@@ -64,6 +65,7 @@ Definition mon (kind : Z) (inp obs : list Z) : bool :=
   | 1104 => mon_roundtrip inp obs
   | 1301 => list_eqb_Z (run_idl inp) obs
   | 1302 => mon_magnet inp obs
+  | 1303 => list_eqb_Z (run_metasess true inp) obs
   | 1501 => mon_udp_packet inp obs
   | 1502 => list_eqb_Z (run_http_query inp) obs
   | 1503 => mon_announcer inp obs
